@@ -316,16 +316,28 @@ pub fn run(toks: &[&str]) -> Option<String> {
         dest_file_newer_behaviour: fb(sc.beh[0]), dest_file_older_behaviour: fb(sc.beh[1]), files_same_time_behaviour: fb(sc.beh[2]),
         dest_entry_needs_deleting_behaviour: eb(sc.beh[3]), dest_root_needs_deleting_behaviour: rb(sc.beh[4]),
     };
-    let bar = indicatif::ProgressBar::hidden();
-    // Watchdog: a boss that blocks forever (e.g. waiting for a listing message that never comes)
-    // is reported as a hang instead of stalling the whole check.
-    let result = {
-        let dry = sc.dry;
-        let src_ref = &mut src_comms;
-        let dest_ref = &mut dest_comms;
-        std::panic::catch_unwind(std::panic::AssertUnwindSafe(move || {
-            crate::boss_sync::sync(&spec, dry, &bar, false, false, src_ref, dest_ref)
-        }))
+    // The boss runs in its own thread under a watchdog: a boss that blocks forever (e.g. waiting for a
+    // listing message that never comes) is reported as a hang and the harness process exits, instead of
+    // stalling the whole check (the driver restarts the harness for the remaining requests).
+    let (done_tx, done_rx) = std::sync::mpsc::channel();
+    let dry = sc.dry;
+    std::thread::Builder::new().name("boss".to_string()).spawn(move || {
+        let bar = indicatif::ProgressBar::hidden();
+        let result = {
+            let src_ref = &mut src_comms;
+            let dest_ref = &mut dest_comms;
+            std::panic::catch_unwind(std::panic::AssertUnwindSafe(move || {
+                crate::boss_sync::sync(&spec, dry, &bar, false, false, src_ref, dest_ref)
+            }))
+        };
+        let _ = done_tx.send((result, src_comms, dest_comms));
+    }).unwrap();
+    let (result, src_comms, dest_comms) = match done_rx.recv_timeout(Duration::from_secs(20)) {
+        Ok(x) => x,
+        Err(_) => {
+            println!("@@ res=hang src=[{}] dest=[{}] log=[] HANG", sh.traces[0].lock().unwrap().join(";"), sh.traces[1].lock().unwrap().join(";"));
+            std::process::exit(3);
+        }
     };
     sh.done.store(true, Ordering::SeqCst);
     let _ = seq.join();
